@@ -8,9 +8,10 @@
 //   BEFORE the pull (from the OLD head's log) and is pending under the NEW head afterwards;  fast-forward -> what was pending under
 //   old is pending under new;  non-fast-forward rebase -> exactly one RebaseComplete(old -> new, the mapped commits, not interactive,
 //   applied);  a merge pull -> no rewrite.
-// Inputs of the deviation classes (REPORT.md: F1 branch.<name>.rebase, F2 --rebase=<v> / abbreviations / bundles, F3 last-one-wins,
-// pull.rebase = no/off/0, rebase.autoStash from the configuration, F4 restore followed by the rebase migration, all-commits-skipped)
-// are skipped unless PULLCFG_STRICT=1; `replay` always checks them.
+// The repaired findings F1 (branch.<name>.rebase), F2 (--rebase=<value>), F3 (the last word counts), the boolean spellings, the
+// rebase.autostash key, F4 (restore followed by the rebase migration) and F5 (merge pull) are part of the STANDING sweep.  Inputs of
+// the remaining classes (an abbreviated option word, a bundled short option, an unreadable configuration) are skipped unless
+// PULLCFG_STRICT=1; `replay` always checks them.
 #![allow(dead_code, unused)]
 use std::collections::{HashMap, HashSet, BTreeMap, BTreeSet};
 use std::cell::RefCell;
@@ -25,15 +26,15 @@ struct World {
     head: Option<String>, dirty: bool, logs: BTreeMap<String, WL>, calls: Vec<String>,
     /// the configuration file: (section, subsection, variable, value) as the user wrote them
     cfg: Vec<(String, Option<String>, String, String)>, cfg_ok: bool,
-    reflog: Option<String>, upstream: Option<String>,
+    reflog: Option<String>, upstream: Option<String>, branch: Option<String>,
     mapping: Option<(Vec<String>, Vec<String>)>,
 }
 thread_local! { static W: RefCell<World> = Default::default(); }
 fn w<T>(f: impl FnOnce(&mut World) -> T) -> T { W.with(|c| f(&mut c.borrow_mut())) }
 pub fn debug_log(_: &str) {}
 pub mod utils { pub use super::debug_log; }
-pub struct Head { t: Option<String> }
-impl Head { pub fn target(&self) -> Result<String, GitAiError> { self.t.clone().ok_or(GitAiError::Generic("unborn".into())) } pub fn name(&self) -> Option<&str> { Some("refs/heads/main") } }
+pub struct Head { t: Option<String>, n: String }
+impl Head { pub fn target(&self) -> Result<String, GitAiError> { self.t.clone().ok_or(GitAiError::Generic("unborn".into())) } pub fn name(&self) -> Option<&str> { Some(self.n.as_str()) } }
 #[derive(Clone, Debug)]
 pub struct RepoStorage { pub _o: () }
 #[derive(Clone, Debug)]
@@ -60,7 +61,7 @@ fn re_match(pattern: &str, key: &str) -> bool {
     p.split('|').any(|alt| m(&alt.chars().collect::<Vec<_>>(), &key.chars().collect::<Vec<_>>(), ci))
 }
 impl Repository {
-    pub fn head(&self) -> Result<Head, GitAiError> { Ok(Head { t: w(|x| x.head.clone()) }) }
+    pub fn head(&self) -> Result<Head, GitAiError> { Ok(Head { t: w(|x| x.head.clone()), n: w(|x| x.branch.clone()).map(|b| format!("refs/heads/{}", b)).unwrap_or("HEAD".into()) }) }
     pub fn require_pre_command_head(&mut self) {
         if self.pre_command_base_commit.is_some() || self.pre_command_refname.is_some() { return; }
         if let Some(h) = w(|x| x.head.clone()) { self.pre_command_base_commit = Some(h); self.pre_command_refname = Some("refs/heads/main".into()); }
@@ -157,23 +158,26 @@ const UP: &str = "cccccccccccccccccccccccccccccccccccccccc";
 const RB: &[(&[&str], Option<bool>, bool)] = &[
     (&[], None, true), (&["--rebase"], Some(true), true), (&["-r"], Some(true), true), (&["--no-rebase"], Some(false), true),
     (&["--rebase", "--no-rebase"], Some(false), true),                                   // the last one counts: no rebase
-    (&["--rebase=true"], Some(true), false), (&["--rebase=false"], Some(false), false), (&["--rebase=merges"], Some(true), false), (&["--rebase=interactive"], Some(true), false),
-    (&["--no-rebase", "--rebase"], Some(true), false),                                   // the last one counts: rebase
+    (&["--rebase=true"], Some(true), true), (&["--rebase=false"], Some(false), true), (&["--rebase=merges"], Some(true), true), (&["--rebase=interactive"], Some(true), true),
+    (&["--rebase=NO"], Some(false), true), (&["--rebase=1"], Some(true), true),
+    (&["--no-rebase", "--rebase"], Some(true), true),                                    // the last one counts: rebase
+    (&["--rebase=false", "-r", "--no-rebase", "--rebase=merges"], Some(true), true),
+    (&["--", "--rebase"], None, true),                                                   // behind `--` nothing is an option (rendered last)
     (&["-qr"], Some(true), false), (&["--reb"], Some(true), false), (&["--no-reb"], Some(false), false),
 ];
 const AS: &[(&[&str], Option<bool>, bool)] = &[
     (&[], None, true), (&["--autostash"], Some(true), true), (&["--no-autostash"], Some(false), true), (&["--autostash", "--no-autostash"], Some(false), true),
-    (&["--no-autostash", "--autostash"], Some(true), false), (&["--autos"], Some(true), false),
+    (&["--no-autostash", "--autostash"], Some(true), true), (&["--autos"], Some(true), false),
 ];
 /// positional arguments: nothing / <repository> / <repository> <refspec>, in front of or behind the options (parse-options permutes)
 const POS: &[(&[&str], bool)] = &[(&[], false), (&["origin"], false), (&["origin", "main"], false), (&["origin", "main"], true)];
 // ---- git-config(1): the values of pull.rebase / branch.<name>.rebase with their documented meaning (None = unset; is it a spelling the code knows)
-const CFG_RB: &[(Option<&str>, bool, bool)] = &[
-    (None, false, true), (Some("true"), true, true), (Some("false"), false, true), (Some("merges"), true, true), (Some("interactive"), true, true),
-    (Some("True"), true, true), (Some("FALSE"), false, true), (Some("yes"), true, true), (Some("1"), true, true),
-    (Some("no"), false, false), (Some("off"), false, false), (Some("0"), false, false),
+const CFG_RB: &[(Option<&str>, bool)] = &[
+    (None, false), (Some("true"), true), (Some("false"), false), (Some("merges"), true), (Some("interactive"), true),
+    (Some("True"), true), (Some("FALSE"), false), (Some("yes"), true), (Some("1"), true),
+    (Some("no"), false), (Some("off"), false), (Some("0"), false), (Some(""), false), (Some("Off"), false),
 ];
-const CFG_AS: &[(Option<&str>, bool)] = &[(None, false), (Some("true"), true), (Some("false"), false), (Some("yes"), true), (Some("no"), false)];
+const CFG_AS: &[(Option<&str>, bool)] = &[(None, false), (Some("true"), true), (Some("false"), false), (Some("yes"), true), (Some("no"), false), (Some("ON"), true), (Some("1"), true)];
 #[derive(Clone, Debug)]
 struct Sc { rb: usize, asf: usize, pos: usize, pull_rebase: usize, branch_rebase: usize, cfg_as: usize, detached: bool,
     /// 0 failed, 1 up to date, 2 fast-forward, 3 diverged (git rebases or merges, as decided), 4 failed with HEAD moved (a rebase stopped by a conflict)
@@ -182,31 +186,28 @@ struct Decision { rebases: bool, autostash: bool, dev: Option<&'static str> }
 /// git's decision, read off the tables: command line, then branch.<name>.rebase, then pull.rebase; rebase.autoStash only without a flag
 fn decide(s: &Sc) -> Decision {
     let (_, cli_rb, rb_plain) = RB[s.rb]; let (_, cli_as, as_plain) = AS[s.asf];
-    let (pv, pull_rb, pull_known) = CFG_RB[s.pull_rebase]; let (bv, branch_rb, _) = CFG_RB[if s.detached { 0 } else { s.branch_rebase }];
+    let (pv, pull_rb) = CFG_RB[s.pull_rebase]; let (bv, branch_rb) = CFG_RB[if s.detached { 0 } else { s.branch_rebase }];
     let cfg_rb = if bv.is_some() { branch_rb } else { pull_rb };
     let rebases = cli_rb.unwrap_or(cfg_rb);
     let autostash = rebases && cli_as.unwrap_or(CFG_AS[s.cfg_as].1);
-    let dev = if !rb_plain { Some("dev_cli_rebase") } else if !as_plain { Some("dev_cli_autostash") }
-        else if cli_rb.is_none() && bv.is_some() && branch_rb != pull_rb { Some("dev_branch_rebase") }
-        else if cli_rb.is_none() && !pull_known { Some("dev_false_spelling") }
-        else if cli_as.is_none() && rebases && CFG_AS[s.cfg_as].1 { Some("dev_cfg_autostash") }
-        else if !s.cfg_ok { Some("configuration unreadable") }
-        else { None };
+    let dev = if !rb_plain || !as_plain { Some("dev_cli") } else if !s.cfg_ok { Some("configuration unreadable") } else { None };
     Decision { rebases, autostash, dev }
 }
 fn render(s: &Sc) -> Vec<String> {
     let mut a: Vec<String> = vec![]; let (p, behind) = POS[s.pos];
+    let sep_form = RB[s.rb].0.first() == Some(&"--");
     if !behind { a.extend(p.iter().map(|x| x.to_string())); }
     // options in front of / behind the positionals; --autostash words first or last
-    if s.pos % 2 == 0 { a.extend(AS[s.asf].0.iter().map(|x| x.to_string())); a.extend(RB[s.rb].0.iter().map(|x| x.to_string())); } else { a.extend(RB[s.rb].0.iter().map(|x| x.to_string())); a.extend(AS[s.asf].0.iter().map(|x| x.to_string())); }
+    if s.pos % 2 == 0 || sep_form { a.extend(AS[s.asf].0.iter().map(|x| x.to_string())); if !sep_form { a.extend(RB[s.rb].0.iter().map(|x| x.to_string())); } } else { a.extend(RB[s.rb].0.iter().map(|x| x.to_string())); a.extend(AS[s.asf].0.iter().map(|x| x.to_string())); }
     if behind { a.extend(p.iter().map(|x| x.to_string())); }
+    if sep_form { a.extend(RB[s.rb].0.iter().map(|x| x.to_string())); }
     a
 }
 fn pending(l: Option<&WL>) -> BTreeMap<String, String> { let mut m = BTreeMap::new(); if let Some(l) = l { for (k, v) in &l.initial { m.insert(k.clone(), v.clone()); } for (k, v) in &l.checkpoints { m.insert(k.clone(), v.clone()); } } m }
 fn setup(s: &Sc) -> (ParsedGitInvocation, Repository, CommandHooksContext) {
     let mut wl = WL::default();
     if s.ini { wl.initial.insert("f.txt".into(), "s1".into()); } if s.cp { wl.checkpoints.insert("g.txt".into(), "s2".into()); }
-    w(|x| { *x = World::default(); x.head = Some(OLD.into()); x.dirty = s.dirty; x.cfg_ok = s.cfg_ok; x.upstream = Some(UP.into());
+    w(|x| { *x = World::default(); x.head = Some(OLD.into()); x.dirty = s.dirty; x.cfg_ok = s.cfg_ok; x.upstream = Some(UP.into()); x.branch = if s.detached { None } else { Some("main".into()) };
         if wl != WL::default() { x.logs.insert(OLD.into(), wl.clone()); }
         x.cfg.push(("core".into(), None, "bare".into(), "false".into()));
         if let Some(v) = CFG_RB[s.pull_rebase].0 { x.cfg.push(("pull".into(), None, "rebase".into(), v.into())); }
@@ -222,11 +223,7 @@ fn chk(c: &mut Ctx, s: &Sc) {
     let d = decide(s);
     // git refuses to rebase a dirty tree without autostash: such a pull fails
     let outcome = if s.outcome == 3 && d.rebases && s.dirty && !d.autostash { 0 } else { s.outcome };
-    let had_both = s.ini && s.cp;
-    let dev: Option<&str> = if d.dev.is_some() { d.dev }
-        else if outcome == 3 && d.rebases && d.autostash && s.dirty && had_both && s.mapping == 0 { Some("dev_restore_then_migrate") }
-        else if outcome == 3 && d.rebases && s.mapping != 0 && s.dirty && (s.ini || s.cp) && !d.autostash { Some("dev_nothing_rewritten") }
-        else { None };
+    let dev: Option<&str> = d.dev;
     if dev.is_some() && !c.strict { return; }
     c.evaluated += 1;
     let (parsed, mut repo, mut ctx) = setup(s);
@@ -282,6 +279,12 @@ fn chk(c: &mut Ctx, s: &Sc) {
         if !want_capture || ***r != want { c.fail("pull_post_command_hook", &clause, input.clone(), format!("{}", r), if want_capture { format!("{} (the attribution captured before the pull, into the NEW head)", want) } else { "no restore".into() }); } }
     if want_capture && restores.is_empty() { c.fail("pull_post_command_hook", &clause, input.clone(), "no restore".into(), "the captured attribution is restored into the new head's working log".into()); }
     let p_new = pending(after.get(NEW));
+    // captured: the old head's log was replaced by the restore - nothing stays behind, and the delete comes BEFORE the restore
+    if want_capture {
+        if after.contains_key(OLD) { c.fail("pull_post_command_hook", &clause, input.clone(), format!("old still holds {:?}", pending(after.get(OLD))), "the old head's working log is dropped when its attribution was captured".into()); }
+        let di = post_calls.iter().position(|x| x.starts_with("delete ")); let ri = post_calls.iter().position(|x| x.starts_with("restore-va"));
+        if !(di.is_some() && ri.is_some() && di < ri) { c.fail("pull_post_command_hook", &clause, input.clone(), format!("{:?}", post_calls), "delete <old> before restore-va".into()); }
+    }
     if outcome == 2 {
         if !rewrites.is_empty() { c.fail("pull_post_command_hook", &clause, input.clone(), format!("{:?}", rewrites), "a fast-forward rewrites no commit".into()); }
         if p_new != b_old { c.fail("pull_post_command_hook", &clause, input.clone(), format!("new: {:?}", p_new), format!("new: {:?} (what was pending under the old head, carried once)", b_old)); }
@@ -296,6 +299,7 @@ fn chk(c: &mut Ctx, s: &Sc) {
         if s.dirty && p_new != b_old { c.fail("pull_post_command_hook", &clause, input.clone(), format!("new: {:?}", p_new), format!("new: {:?} (the pending attribution of the stashed work, under the new head)", b_old)); }
     } else {
         if !rewrites.is_empty() { c.fail("pull_post_command_hook", &clause, input.clone(), format!("{:?}", rewrites), "a merge pull rewrites no commit".into()); }
+        if p_new != b_old { c.fail("pull_post_command_hook", &clause, input.clone(), format!("new: {:?}", p_new), format!("new: {:?} (a merge pull carries the pending attribution to the merge commit)", b_old)); }
     }
 }
 /// was_fast_forward_pull on its own: the reflog lines git writes, with what they mean
